@@ -3370,6 +3370,10 @@ class Session(object):
             return None
 
         def run_add_or_renew_pool():
+            if self.is_shutdown:
+                # shut down after this task was queued: no pool is wanted any more
+                # (and that is not a failure of the host)
+                return True
             try:
                 if self._protocol_version >= 3:
                     new_pool = HostConnection(host, distance, self)
@@ -3414,7 +3418,15 @@ class Session(object):
                         self._lock.acquire()
                         return False
                     self._lock.acquire()
-                self._pools[host] = new_pool
+                # shutdown() sets is_shutdown under this lock before it looks at _pools
+                is_shutdown = self.is_shutdown
+                if not is_shutdown:
+                    self._pools[host] = new_pool
+
+            if is_shutdown:
+                # shut down while the pool was being created: shutdown() did not see it
+                new_pool.shutdown()
+                return True
 
             log.debug("Added pool for host %s to session", host)
             if previous:
